@@ -3,14 +3,16 @@ use crate::harness::Ctx;
 use serde_json::Value;
 
 pub mod c15;
+pub mod c36;
 
 pub fn ids() -> Vec<&'static str> {
-    vec!["C15"]
+    vec!["C15", "C36"]
 }
 
 pub fn run(id: &str, ctx: &mut Ctx) -> bool {
     match id {
         "C15" => c15::run(ctx),
+        "C36" => c36::run(ctx),
         _ => return false,
     }
     true
